@@ -271,6 +271,26 @@ func c04(c *ctx) {
 		sc.build(fs, i)
 		t.run(sc)
 	}
+	// long runs of frames that carry no message bytes (empty fragments, control frames) inside a message
+	for ri, run := range []int{99, 100, 101, 160} {
+		for mode := 0; mode < 3; mode++ {
+			for vi, v := range []rvariant{{"reader", nil, -1, false}, {"readmessage", nil, -1, true}, {"readdata", []int{1, 2}, -1, true}, {"nextreader", nil, -1, false}} {
+				side := []string{"server", "client"}[(ri+mode+vi)%2]
+				fs := []fspec{{Op: 1, Fin: false, Pay: []byte("head-")}}
+				for i := 0; i < run; i++ {
+					switch {
+					case mode == 0 || (mode == 2 && i%2 == 0):
+						fs = append(fs, fspec{Op: 0, Fin: false, Pay: []byte{}})
+					default:
+						fs = append(fs, fspec{Op: 10, Fin: true, Pay: []byte{}})
+					}
+				}
+				fs = append(fs, fspec{Op: 0, Fin: true, Pay: []byte("tail")}, fspec{Op: 2, Fin: true, Pay: []byte("next")})
+				key := fmt.Sprintf("emptyrun/%d/%d/%s/%s", run, mode, v.Entry, side)
+				t.run(mkScenario(key, side, v, fs, rchunks[(ri+vi)%len(rchunks)], rbufs[(ri+mode)%len(rbufs)]))
+			}
+		}
+	}
 	// after a message ends - also one that was given up half-way, inside a multi-byte sequence - the
 	// reader is ready for the next one (sampled from the family C18 runs in full)
 	reuseFamily(t, c, "ready", func(rot, disc int) bool { return c.thorough && rot%3 == 0 || rot%5 == 2 })
